@@ -5,6 +5,13 @@ Line protocol of C18 (all numbers decimal, times in milliseconds of the case's t
 
   bf <MaxFailures> <TimeWindow> <BanDuration> <PermanentBanAt> <ev>…
        ev = <t>:f:<ip> | <t>:r:<ip> | <t>:b:<ip>:<i> | <t>:s:<ip> | <t>:q:<ip> | <t>:u:<ip> | <t>:c
+            | <t>:cf | <t>:cb | <t>:ss | <t>:sd      (clean-up cut into its critical sections; model only)
+  race <mode> <MaxFailures> <TimeWindow> <BanDuration> <PermanentBanAt> <addrs> <workers> <rounds> <seed>
+       a racing run: per round <addrs> addresses with an elapsed, unswept ban; <workers> goroutines each
+       add one threshold-reaching failure per address while the real clean-up runs (mode manual: called by
+       the harness behind a barrier; mode ticker: the protector's own periodic goroutine).
+       observation: lost <k> = addresses for which RecordFailure reported a ban and IsBanned, asked right
+       after (well inside the ban period), said no.
   ip <ev>…
        ev = <t>:ab:<addr>/<plen|x>:<dur> | <t>:rb:<key> | <t>:aw:<key> | <t>:rw:<key> | <t>:al:<ip> | <t>:ar:<ip> | <t>:c
   rl <Rate> <Burst> <TTL> <U> <ev>…
@@ -27,6 +34,10 @@ def parseEv (ps : List String) : Option Ev :=
   | ["q", a] => a.toNat?.map .query
   | ["u", a] => a.toNat?.map .asyncUnban
   | ["c"] => some .cleanup
+  | ["cf"] => some .cleanFr
+  | ["cb"] => some .cleanBan
+  | ["ss"] => some .sweepScan
+  | ["sd"] => some .sweepDelete
   | _ => none
 
 def parseKey (s : String) : Option IPKey :=
@@ -99,6 +110,7 @@ inductive Case
   | ip (es : List (Nat × IEv))
   | rl (cfg : RateLimitConfig) (U : Nat) (es : List (Nat × REv))
   | hs (cfg : HCfg) (es : List (Nat × HEv))
+  | race (cfg : BruteForceConfig)
 
 def parseCase (ts : List String) : Option Case :=
   match ts with
@@ -106,6 +118,10 @@ def parseCase (ts : List String) : Option Case :=
     match natList [m, w, b, p], evs.mapM (parseTimed parseEv) with
     | some [m, w, b, p], some es => some (.bf ⟨m, w, b, p⟩ es)
     | _, _ => none
+  | ["race", _mode, m, w, b, p, _addrs, _workers, _rounds, _seed] =>
+    match natList [m, w, b, p] with
+    | some [m, w, b, p] => some (.race ⟨m, w, b, p⟩)
+    | _ => none
   | "ip" :: evs => (evs.mapM (parseTimed parseIEv)).map .ip
   | "rl" :: r :: b :: ttl :: u :: evs =>
     match natList [r, b, ttl, u], evs.mapM (parseTimed parseREv) with
@@ -117,12 +133,26 @@ def parseCase (ts : List String) : Option Case :=
     | _, _ => none
   | _ => none
 
+/-- What one address goes through in a racing round, with the sweep cut around its failure in the
+least favourable way: `MaxFailures` failures (ban), the ban period passes, the scan phase sees the
+elapsed record, the next failure lands, the delete phase runs, the address is asked. -/
+def raceTimeline (cfg : BruteForceConfig) : List TEv :=
+  (List.replicate cfg.MaxFailures (1, Ev.fail 1)) ++
+  [(cfg.BanDuration + 2, .sweepScan), (cfg.BanDuration + 2, .fail 1), (cfg.BanDuration + 2, .sweepDelete),
+   (cfg.BanDuration + 3, .query 1)]
+
+/-- the time line's answers with the last one (the query) replaced by what was observed -/
+def raceObs (cfg : BruteForceConfig) (refused : Bool) : List (Option Bool) :=
+  (run cfg (raceTimeline cfg) State.empty).dropLast ++ [some refused]
+
 def runModel (ts : List String) : String :=
   match parseCase ts with
   | some (.bf cfg es) => " ".intercalate ((run cfg es State.empty).map showB)
   | some (.ip es) => " ".intercalate ((ipmRun es IPM.empty).map showB)
   | some (.rl cfg u es) => " ".intercalate ((rlRun cfg u es (fun _ => none)).map showB)
   | some (.hs cfg es) => " ".intercalate ((hRun cfg es HState.empty).map showR)
+  | some (.race cfg) =>
+    if (run cfg (raceTimeline cfg) State.empty).getLast? == some (some true) then "lost 0" else "lost any"
   | none => "bad-case"
 
 /-- The property predicates of `Spec/C18.lean` on an observation; an observation that does not
@@ -145,6 +175,13 @@ def runHolds (caseToks obsToks : List String) : String :=
     match obsToks.mapM parseR with
     | some obs => boolStr (holdsHS cfg es obs)
     | none => "false"
+  | some (.race cfg) =>
+    match obsToks with
+    | ["lost", k] =>
+      match k.toNat? with
+      | some k => boolStr (holdsBF cfg (raceTimeline cfg) (raceObs cfg (k == 0)))
+      | none => "false"
+    | _ => "false"
   | none => "false"
 
 end Tunnox.Drv.C18
